@@ -24,6 +24,7 @@ RULE = ('random handler sets x random histories; non-trivial = at least one inst
         '(handler, start, flag, cancel, end, reasons) tuples')
 ASSUMPTIONS = ['the fake API server delivery instants are the instants the operator "sees" a change', 'change handlers are instantaneous (no worker is busy for long)',
                'daemon personas are finite (a daemon swallowing every cancellation forever blocks the exit by design)']
+SANITIZE_LOOP_ERRORS = True      # an exception inside an asyncio callback during the simulation is a violation here (runner.run_case_sanitized)
 GATES = {'instances': 800, 'stopped_by_mismatch': 30, 'stopped_by_deletion': 100, 'stopped_by_pause': 40, 'stopped_by_exit': 80, 'cancelled': 100, 'abandoned': 10,
          'start_checks': 400, 'stop_checks': 800, 'self_exits': 40, 'respawns': 30, 'vanished_objects': 100, 'timer_instances': 200}
 
